@@ -76,9 +76,23 @@ func runC12(c *fw.Ctx) {
 		wr, ww := m.Ref()
 		if r.Intn(3) == 0 && ww > 0 { // the source is a collapsed view of the committed trie (CopyRoot) instead of a bare hash node
 			vl := r.Intn(6)
+			live := src
 			src = wmpt.New(src.CopyRoot(vl), st)
 			lvl = 100 + vl
 			c.Count("imports_from_copyroot_view", 1)
+			if r.Intn(2) == 0 { // the trie the view was taken from moves on (in memory): the view must not notice
+				ks := m.Keys()
+				for i := 0; i < 1+r.Intn(3); i++ {
+					k := ks[r.Intn(len(ks))]
+					v, w := g.Value()
+					if r.Intn(2) == 0 {
+						v, w = g.SameWeightValue(m[k].W), m[k].W
+					}
+					c.Tracef("live trie behind the view: upd %s=%s", wl.KeyStr([]byte(k)), v)
+					_ = live.Update([]byte(k), v, w)
+				}
+				c.Count("views_whose_origin_moved_on", 1)
+			}
 		} else {
 			src = wl.Reopen(wr, ww, st)
 		}
@@ -235,7 +249,7 @@ func init() {
 	fw.Register(&fw.Prop{
 		ID:    "C12",
 		Level: "exploration",
-		Rule: "cases enumerate root shape (empty, single entry, shared-prefix short root, branch root) x requested-key-set size in {0,1,2,5,9,10,11,12,20,40} (both sides of the >10 parallel collection path) x source (in memory with hashes finalised, or committed at a collapse level 0..5 and reopened from the hash or viewed through CopyRoot(level)); case 0 is one export of all keys of a 66 000-entry trie (far more than 2^17 nodes); " +
+		Rule: "cases enumerate root shape (empty, single entry, shared-prefix short root, branch root) x requested-key-set size in {0,1,2,5,9,10,11,12,20,40} (both sides of the >10 parallel collection path) x source (in memory with hashes finalised, or committed at a collapse level 0..5 and reopened from the hash or viewed through CopyRoot(level), in half of those cases with the trie the view was taken from updated afterwards); case 0 is one export of all keys of a 66 000-entry trie (far more than 2^17 nodes); " +
 			"requested keys mix present and absent ones; GetPath export -> Deserialize into a storage-less trie; then 1..10 mirrored updates/deletes restricted to requested keys on both tries. Oracle: Deserialize succeeds; Root()/Weight() of the partial trie equal the source's and the independent reference after import and after each operation; " +
 			"error/no-error outcomes agree. distinct non-trivial = distinct (case description, trace)",
 		Cases: func(tier string) int {
@@ -245,7 +259,7 @@ func init() {
 			return 19200
 		},
 		Run:    runC12,
-		Floors: map[string]int64{"imports": 18000, "mirrored_ops": 50000, "imports_above_parallel_threshold": 5000, "imports_from_collapsed_source": 5000, "shape:0": 1000, "shape:1": 1000, "shape:2": 1000, "shape:3": 1000, "imports_from_copyroot_view": 2000, "huge_exports": 1},
+		Floors: map[string]int64{"imports": 18000, "mirrored_ops": 50000, "imports_above_parallel_threshold": 5000, "imports_from_collapsed_source": 5000, "shape:0": 1000, "shape:1": 1000, "shape:2": 1000, "shape:3": 1000, "imports_from_copyroot_view": 2000, "views_whose_origin_moved_on": 800, "huge_exports": 1},
 		Race:   true,
 		Assumptions: []string{
 			"in-memory sources have their hashes finalised through Root() before GetPath (the usage the package's own tests show)",
